@@ -80,5 +80,5 @@ PROPERTIES = {
     'C13': dict(units=['registry', 'wrappers_global', 'wrappers_async'] + ENGINES, extra=[_reg('C13')],
                 explanation='conditional-invalidation callbacks as emitted by the real macros (one verified representative per emitted shape): exactly the stored keys satisfying the predicate leave store and queue, survivors untouched, queue order preserved, representation invariant re-established -- so that by the engine contracts later limits / evictions / totals are those of a cache in which the keys were never stored',
                 assumptions=['R8: the user predicate is a pure function of the key; the closure invalidate_all_with builds around it is abstracted to "the predicate specialised to that cache name"']),
-    'C15': dict(units=ENGINES + ['interference', 'stats_registry'], extra=[_reg('C15'), _kani('C15', 'stats')], explanation='exactly one of hits/misses is bumped by exactly one per lookup, a hit exactly when an unexpired entry was found (all three engines); the same under the interference projection (every lock acquisition sees arbitrarily changed data) for the global and async lookups; CacheStats methods; stats_registry register/get/reset/clear (retrievable under the name, reset touches only that entry); every expansion registers its statistics under `name` or the function name (structural)', assumptions=['fetch_add on AtomicU64 is an atomic read-modify-write (std): with exactly one fetch_add(1) per lookup the totals are exact under any interleaving; the sequential behaviour of the REAL CacheStats (wrapping +1 on one counter only, reset, clone) is proved by Kani in the thorough tier on stats.rs compiled in place']),
+    'C15': dict(units=ENGINES + ['interference', 'stats_registry'] + WRAPPERS, extra=[_reg('C15'), _kani('C15', 'stats')], explanation='on the real macro expansions one cached call counts exactly one lookup (wrapper contracts: the store, the predicates and the refresh path count nothing); exactly one of hits/misses is bumped by exactly one per lookup, a hit exactly when an unexpired entry was found (all three engines); the same under the interference projection (every lock acquisition sees arbitrarily changed data) for the global and async lookups; CacheStats methods; stats_registry register/get/reset/clear (retrievable under the name, reset touches only that entry); every expansion registers its statistics under `name` or the function name (structural)', assumptions=['fetch_add on AtomicU64 is an atomic read-modify-write (std): with exactly one fetch_add(1) per lookup the totals are exact under any interleaving; the sequential behaviour of the REAL CacheStats (wrapping +1 on one counter only, reset, clone) is proved by Kani in the thorough tier on stats.rs compiled in place']),
 }
